@@ -225,14 +225,16 @@ def c18_lroo_dtype():
     return {"violates": str(lazy.dtype) != str(np.asarray(k).dtype), "lazy": str(lazy.dtype), "kernel": str(np.asarray(k).dtype)}
 
 
-def c18_croo(values, times):
+def c18_croo(values, times, dims=None):
     import xarray as xr
     import pandas as pd
     import hdc.algo  # noqa
     n = len(values)
     t = pd.to_datetime("2000-01-01") + pd.to_timedelta(np.array(times, dtype="int64"), unit="D")
     da = xr.DataArray(np.array(values, dtype="int64").reshape(n, 1, 1), dims=("time", "y", "x"), coords={"time": t})
-    got = int(da.hdc.algo.croo().values[0, 0])
+    if dims and len(dims) == 3:
+        da = da.transpose(*dims)
+    got = int(np.asarray(da.hdc.algo.croo().values).reshape(-1)[0])
     order = np.argsort(times)[::-1]
     exp = 0
     for i in order:
